@@ -6,6 +6,8 @@ R4.1 CLOSE-BEFORE-READ  queries that are exact only on the closed matrix close t
      operand(s) before reading them.
 Exactness of the closure algorithms themselves is numeric and not decided.
 """
+import re
+
 from pplv import facts as F
 from pplv import typestate as T
 from pplv import flow
@@ -265,6 +267,79 @@ def r4_4(ctx, fx):
     ctx.floor(rid, n, 4, "collapsing set_zero_dim_univ sites")
 
 
+BOX_SKIP = ("operator=", "m_swap", "swap", "ascii_dump", "ascii_load", "external_memory_in_bytes", "total_memory_in_bytes",
+            "check_empty", "OK", "operator[]", "get_interval", "set_interval", "print")
+BOX_GUARDS = ("none", "marked", "is_empty")
+
+
+def box_guard_classes(fx):
+    """{(function, nparams, operand): (guard class, Func, first read)} for Box members that read interval contents."""
+    out = {}
+    seen = set()
+    for f in fx.functions:
+        if f.clsn != "Box" or f.flag("pattern") or not f.cfg or f.kind in ("ctor", "dtor") or f.name in BOX_SKIP:
+            continue
+        if (f.relfile, f.line, f.cls) in seen:
+            continue
+        seen.add((f.relfile, f.line, f.cls))
+        operands = [("this",)] + [("param", p["n"]) for p in f.params if re.search(r"\bBox<", p["t"]) or p["t"].strip().startswith("const T &")]
+        for obj in operands:
+            reads = []
+            for n in f.walk():
+                if n["k"] == "member" and n.get("n") == "seq" and f.root(n) == obj + ("seq",):
+                    par = f.parent.get(n["i"])
+                    if par is not None and par["k"] == "mcall" and f.call_name(par) in ("size", "resize", "reserve", "clear", "swap", "erase", "insert", "push_back", "begin", "end"):
+                        continue
+                    if f.cfg_pos(n) is not None or (par is not None and f.cfg_pos(par) is not None):
+                        reads.append(n)
+            if not reads:
+                continue
+
+            def on_obj(y, names):
+                if y["k"] != "mcall" or f.call_name(y) not in names:
+                    return False
+                o = f.call_obj(y)
+                return (o is None and obj == ("this",)) or (o is not None and f.root(o) == obj)
+            strong = all(flow.must_precede(f, r, lambda y: on_obj(y, ("is_empty", "check_empty"))) is None for r in reads)
+            weak = strong or all(flow.must_precede(f, r, lambda y: on_obj(y, ("is_empty", "check_empty", "marked_empty", "set_empty", "set_nonempty", "set_empty_up_to_date"))) is None for r in reads)
+            cls_ = "is_empty" if strong else "marked" if weak else "none"
+            key = (f.name, len(f.params), "/".join(obj))
+            if key in out and BOX_GUARDS.index(out[key][0]) <= BOX_GUARDS.index(cls_):
+                continue
+            out[key] = (cls_, f, reads[0])
+    return out
+
+
+def r4_6(ctx):
+    import json
+    import os
+    rid = "R4.6"
+    ctx.rule(rid, "Box emptiness guard (Box<Rational_Interval>): a box may be empty without being marked so (one interval empty). For every (member, operand) of the frozen table whose interval contents are read, the reads are still dominated on every path by an emptiness test of that operand at least as strong as when the table was confirmed (is_empty() > marked_empty() > none): replacing is_empty() by marked_empty() makes the answer depend on whether emptiness has already been detected")
+    fx = ctx.extract([F.driver_unit("domains.cc", file_re=r"Box_(templates|inlines)\.hh")])
+    cur = box_guard_classes(fx)
+    path = os.path.join(F.VERIF, "tables", "R4.6.json")
+    table = json.load(open(path))["entries"]
+    n = 0
+    for ent in table:
+        key = (ent["function"], ent["nparams"], ent["operand"])
+        inst = "Box::%s/%d reads %s under %s" % (key + (ent["guard"],))
+        n += 1
+        if key not in cur:
+            if not any(f.clsn == "Box" and f.name == ent["function"] and len(f.params) == ent["nparams"] for f in fx.functions):
+                raise F.AnalysisBroken("R4.6: anchor function Box::%s/%d vanished" % key[:2])
+            ctx.ok(rid, inst + " (no longer reads the intervals)", "src/Box_templates.hh")
+            continue
+        g, f, rd = cur[key]
+        if BOX_GUARDS.index(g) < BOX_GUARDS.index(ent["guard"]):
+            ctx.violation(rid, inst, f.where(rd), "the intervals of `%s` are now read under guard `%s` only (was `%s`): for a box that is empty but not yet marked so the answer depends on its history" % (ent["operand"], g, ent["guard"]))
+        else:
+            ctx.ok(rid, inst, f.where(rd))
+    for key in sorted(cur):
+        if not any((e["function"], e["nparams"], e["operand"]) == key for e in table):
+            ctx.note(rid, "reader not in the frozen table (not judged): Box::%s/%d %s [%s]" % (key + (cur[key][0],)))
+    ctx.floor(rid, n, 40, "frozen (member, operand) emptiness guards")
+
+
 def run(ctx):
     ctx.explanation = ("C04 canonical-form protocol on BD_Shape<mpq_class> / Octagonal_Shape<mpq_class>: flag typestate over CFG paths; "
                        "decides the protocol clause (answers cannot depend on whether an operand happens to be closed/reduced), not the closure arithmetic")
@@ -275,3 +350,4 @@ def run(ctx):
     r4_3(ctx, fx)
     r4_1(ctx, fx)
     r4_4(ctx, fx)
+    r4_6(ctx)
